@@ -11,26 +11,26 @@ use std::collections::HashMap;
 use std::net::Ipv4Addr;
 
 const BASE: u32 = 0x0A00_0000; // 10.0.0.x  <->  address index x
-const SERVERIP: Ipv4Addr = Ipv4Addr::new(10, 9, 0, 1);
-const SERVERIP2: Ipv4Addr = Ipv4Addr::new(10, 9, 0, 2);
-const FOREIGN: Ipv4Addr = Ipv4Addr::new(10, 77, 0, 1);
+pub const SERVERIP: Ipv4Addr = Ipv4Addr::new(10, 9, 0, 1);
+pub const SERVERIP2: Ipv4Addr = Ipv4Addr::new(10, 9, 0, 2);
+pub const FOREIGN: Ipv4Addr = Ipv4Addr::new(10, 77, 0, 1);
 const NOPOLICY_IP: Ipv4Addr = Ipv4Addr::new(10, 8, 0, 1);
 
 thread_local! {
     /// address index i (1-based) <-> 10.0.0.0 + AMAP[i-1]; empty = identity
     static AMAP: std::cell::RefCell<Vec<u32>> = const { std::cell::RefCell::new(Vec::new()) };
 }
-fn set_amap(v: Vec<u32>) {
+pub fn set_amap(v: Vec<u32>) {
     AMAP.with(|m| *m.borrow_mut() = v);
 }
-fn addr(x: i64) -> Ipv4Addr {
+pub fn addr(x: i64) -> Ipv4Addr {
     let off = AMAP.with(|m| {
         let m = m.borrow();
         if m.is_empty() || x < 1 || x as usize > m.len() { x as u32 } else { m[x as usize - 1] }
     });
     Ipv4Addr::from(BASE + off)
 }
-fn idx(a: Ipv4Addr) -> i64 {
+pub fn idx(a: Ipv4Addr) -> i64 {
     let v = u32::from(a);
     if !(BASE..BASE + 0x100000).contains(&v) {
         return -1;
@@ -62,16 +62,16 @@ pub fn client_identity(c: i64, lvl: &str) -> Vec<u8> {
     cid.unwrap_or(mac)
 }
 
-struct Store {
-    pool: Option<pool::Pool>,
-    path: std::path::PathBuf,
-    epoch: i64,
-    shift: i64,
-    ids: HashMap<Vec<u8>, i64>,
+pub struct Store {
+    pub pool: Option<pool::Pool>,
+    pub path: std::path::PathBuf,
+    pub epoch: i64,
+    pub shift: i64,
+    pub ids: HashMap<Vec<u8>, i64>,
 }
 
 impl Store {
-    fn now(&self) -> i64 {
+    pub fn now(&self) -> i64 {
         now_secs() - self.epoch + self.shift
     }
     fn model(&self, dbtime: i64) -> i64 {
@@ -81,7 +81,7 @@ impl Store {
         *self.ids.get(id).unwrap_or(&999)
     }
     /// The lease table as the harness reads it itself (own SQL, not get_leases()).
-    fn table(&self) -> Value {
+    pub fn table(&self) -> Value {
         let p = self.pool.as_ref().expect("store open");
         let conn = p.verif_conn();
         let mut st = conn
@@ -108,7 +108,7 @@ impl Store {
                 .collect(),
         )
     }
-    fn shift_rows(&mut self, d: i64) {
+    pub fn shift_rows(&mut self, d: i64) {
         if d <= 0 {
             return;
         }
@@ -118,7 +118,7 @@ impl Store {
             .expect("shift");
         self.shift += d;
     }
-    fn expiry_of(&self, x: i64) -> Option<i64> {
+    pub fn expiry_of(&self, x: i64) -> Option<i64> {
         let p = self.pool.as_ref().expect("store open");
         p.verif_conn()
             .query_row(
